@@ -129,6 +129,14 @@ func (m *Machine) newObj(v Value, what string, t types.Type) *Object {
 
 // ---- path condition and decisions
 
+func (m *Machine) check(assume []*sym.Term, neg []bool) sym.Result {
+	r := m.Z.Check(m.S, assume, neg)
+	if m.Z.Lost {
+		m.end("unsupported", "solver did not answer within twice its timeout and was restarted (query too hard)")
+	}
+	return r
+}
+
 func (m *Machine) addPC(c *sym.Term) {
 	if c.IsTrue() {
 		return
@@ -155,7 +163,7 @@ func (m *Machine) Assume(c *sym.Term) {
 	}
 	m.addPC(c)
 	if m.pos >= len(m.Vec) { // in replayed prefix the assumption was checked before
-		if m.Z.Check(m.S, nil, nil) == sym.Unsat {
+		if m.check(nil, nil) == sym.Unsat {
 			m.end("infeasible", "assumption unsatisfiable")
 		}
 	}
@@ -183,13 +191,13 @@ func (m *Machine) Branch(c *sym.Term) bool {
 			m.addPC(m.S.Not(c))
 		}
 		if m.pos == len(m.Vec) && m.verify {
-			if m.Z.Check(m.S, nil, nil) == sym.Unsat {
+			if m.check(nil, nil) == sym.Unsat {
 				m.end("infeasible", "")
 			}
 		}
 		return d == 0
 	}
-	r := m.Z.Check(m.S, []*sym.Term{c}, []bool{false})
+	r := m.check([]*sym.Term{c}, []bool{false})
 	if r == sym.Unsat {
 		m.Vec = append(m.Vec, 1)
 		m.pos++
@@ -256,7 +264,7 @@ func (m *Machine) Concretize(t *sym.Term, what string) int64 {
 			if m.pos < len(m.Vec) {
 				m.end("unsupported", "missing concretization hint (non-deterministic re-execution)")
 			}
-			if m.Z.Check(m.S, nil, nil) != sym.Sat {
+			if m.check(nil, nil) != sym.Sat {
 				m.end("infeasible", "concretize: path condition not satisfiable")
 			}
 			vals, ok := m.Z.Eval(m.S, []*sym.Term{t})
